@@ -333,7 +333,7 @@ def check_hodge(repo, res, hl):
             if fname == "boundary_matrix":
                 od = e.args[1] if len(e.args) > 1 else next((k.value for k in e.keywords if k.arg == "order"), None)
                 k = order_of(od) if od is not None else None
-                return ("B", k) if k is not None else None
+                return ("B", k if k is not None else (unparse(od) if od is not None else "default"))
             if fname == "transpose":
                 inner = e.args[0] if e.args else (e.func.value if isinstance(e.func, ast.Attribute) else None)
                 v = mat(inner, env) if inner is not None else None
